@@ -727,6 +727,21 @@ theorem ticks_chronological (L : OrderedFieldLaws F) (p : Params F) (fuel : Nat)
     have h4 := L.add_lt_add_left _ _ (spanStart p s) h3
     simpa [tickEvent, mkTick, hr] using h4
 
+/-- **last_tick_formula** (exact arithmetic): the final span ends at `start + span_count·dur` — the tail's time —
+and the last tick lies at the later of the half-way time and 36 ms before that end. -/
+theorem last_tick_formula (L : OrderedFieldLaws F) (p : Params F) :
+    (tailEvent p).time = p.startTime + Scalar.ofInt p.spanCount * p.spanDuration ∧
+    (lastTickEvent p).time =
+      Scalar.max (p.startTime + Scalar.ofInt p.spanCount * p.spanDuration / (2 : F))
+        ((tailEvent p).time + -(36 : F)) := by
+  refine ⟨rfl, ?_⟩
+  have hend : (p.startTime + Scalar.ofInt (p.spanCount - 1) * p.spanDuration) + p.spanDuration =
+      p.startTime + Scalar.ofInt p.spanCount * p.spanDuration := by
+    have h1 : (Scalar.ofInt p.spanCount : F) = Scalar.ofInt (p.spanCount - 1) + 1 := by
+      rw [← L.ofInt_succ]; congr 1; omega
+    rw [L.add_assoc, h1, L.add_mul, L.one_mul]
+  simp only [lastTickEvent, tailEvent, tailLeniency, hend]
+
 /-! ## Non-vacuity: the hypotheses are satisfiable, on exact rationals (`ratScalar`) -/
 
 section Examples
